@@ -484,6 +484,21 @@ def r6(ctx):
                  line=n.lineno, role=f"availability:{mi.name.split('.')[-1]}:{what}", expected="only fast_ticc.numba_guard looks at Numba", found=what)
     if not bad:
         ctx.ok("package", "only fast_ticc.numba_guard refers to numba / NUMBA_AVAILABLE", role="availability")
+    # inside the guard module: Numba is imported, asked for njit / prange, and otherwise left alone - its thread pool and its
+    # configuration are process-wide and a request can fail (set_num_threads raises above NUMBA_NUM_THREADS) where the fallback cannot
+    gm = ana.prog.modules.get(guard)
+    conf = []
+    if gm is not None:
+        for n in ast.walk(gm.tree):
+            d = ana.res.dotted(n) if isinstance(n, ast.Attribute) else None
+            if d and (gm.imports.get(d[0]) == "numba" or d[0] == "numba") and len(d) >= 2 and d[1] not in ("njit", "prange", "jit", "__version__"):
+                conf.append((n, ".".join(d)))
+    for n, what in conf:
+        ctx.fail(guard, f"the guard module reaches into Numba's runtime (`{what}`): thread count and configuration are process-global, and the "
+                        "no-Numba fallback has no counterpart that can fail the same way", line=n.lineno, role=f"numba-runtime:{what}",
+                 expected="numba.njit / numba.prange only", found=what)
+    if gm is not None and not conf:
+        ctx.ok(guard, "the guard module takes njit and prange from Numba and nothing else", role="numba-runtime")
     n_k = 0
     for fi, d in njit_kernels(ana):
         n_k += 1
@@ -499,3 +514,43 @@ def r6(ctx):
             ctx.ok(fi, "kernel draws no random numbers", role=f"kernel-random:{short(fi.qualname)}")
     if n_k == 0:
         raise AnalysisError("no njit kernel found")
+
+
+# library calls whose Numba implementation agrees with NumPy for the argument kinds the kernels use (arrays of float64 / integer
+# dtypes, Python scalars); anything else inside a compiled kernel is outside what this analysis can vouch for
+KERNEL_CALLS_MODELLED = {
+    "builtins.range", "builtins.len", "builtins.int", "builtins.float", "builtins.min", "builtins.max", "builtins.abs",
+    "numpy.zeros", "numpy.ones", "numpy.empty", "numpy.zeros_like", "numpy.empty_like", "numpy.argmin", "numpy.argmax",
+    "numpy.log", "numpy.exp", "numpy.sqrt", "numpy.dot", "numpy.sum", "numpy.abs", "numpy.transpose",
+    "fast_ticc.numba_guard.prange", "numba.prange",
+}
+KERNEL_METHODS_MODELLED = {"argmin", "argmax", "sum", "dot", "transpose", "copy"}
+
+
+@rule("C15", "R7", "CENSUS", "compiled kernels use only library calls whose Numba and NumPy behaviour is known to agree", floor=3)
+def r7(ctx):
+    """Not a verdict on the call: `np.full(n, x)`, `np.repeat(x, n)` or `a.ravel()[i]` type-check (or index) differently under
+    Numba than in the interpreter for some argument kinds - array-valued fill values, uint16 index arithmetic under NEP 50 - and this
+    analysis has no model of that.  A call outside the modelled set makes the property undecidable here (exit 2), never a VIOLATION."""
+    ana = ctx.ana
+    for fi, d in njit_kernels(ana):
+        unknown = []
+        for cs in ana.res.calls(fi):
+            c = cs.callee
+            if c.func is not None:
+                continue                                    # another package function (a kernel itself: C15.R1 census)
+            t = str(c.target)
+            if c.kind == "method_unknown":
+                if t not in KERNEL_METHODS_MODELLED:
+                    unknown.append((cs, "." + t + "()"))
+            elif t not in KERNEL_CALLS_MODELLED:
+                unknown.append((cs, t))
+        for n in Resolver.walk_own(fi.node):
+            if isinstance(n, ast.Subscript) and not isinstance(n.value, (ast.Name, ast.Attribute)):
+                unknown.append((None, f"subscript of an expression `{unparse(n, 50)}`"))
+        if unknown:
+            what = ", ".join(sorted({w for _c, w in unknown}))
+            ctx.unrecognised(fi, f"the kernel uses {what}: agreement of Numba and NumPy for the argument kinds used here is not modelled",
+                             role=f"kernel-calls:{short(fi.qualname)}", found=what)
+        else:
+            ctx.ok(fi, "every library call in the kernel is in the modelled set (allocation, argmin, log, range / prange)", role=f"kernel-calls:{short(fi.qualname)}")
